@@ -261,6 +261,9 @@ FITTED = [  # (name, family for c02 builders, model factory kwargs)
     ("daily_dev", "daily", {"settings": {"developer_mode": True, "silent_developer_mode": True, "cvrmse_threshold": 0.5}}),
     ("daily_maps", "daily", {"settings": {"season": {"march": "winter"}, "weekday_weekend": {"friday": "weekend"}, "uncertainty_alpha": 0.2}}),
     ("daily_poorfit", "daily", {"settings": {"developer_mode": True, "silent_developer_mode": True, "cvrmse_threshold": 1e-6}}),
+    # an accepted setting that makes the stored uncertainty infinite (non-finite numbers in the document)
+    ("daily_unc_alpha0", "daily", {"settings": {"uncertainty_alpha": 0}}),
+    ("billing_unc_alpha0", "billing", {"settings": {"uncertainty_alpha": 0}}),
     ("billing", "billing", {}),
     ("daily_fixed_offset", "daily", {}),     # baseline indexed in a fixed UTC offset ("-06:00"), as parsing ISO-8601 text gives
     ("billing_fixed_offset", "billing", {}),
@@ -503,7 +506,7 @@ def run_case(case):
 def cases_B(tier):
     names = [f[0] for f in FITTED]
     if tier == "quick":
-        names = ["daily_current", "daily_legacy", "daily_poorfit", "billing", "daily_fixed_offset", "billing_fixed_offset", "hourly", "hourly_solar", "hourly_robust", "hourly_bins", "hourly_supp", "caltrack"]
+        names = ["daily_current", "daily_legacy", "daily_poorfit", "daily_unc_alpha0", "billing", "daily_fixed_offset", "billing_fixed_offset", "hourly", "hourly_solar", "hourly_robust", "hourly_bins", "hourly_supp", "caltrack"]
     out = [{"part": "B", "fit": n, "tier": tier, "depth": 3 if tier == "thorough" else 2} for n in names]
     out += [{"part": "R", "fit": f, "tier": tier} for f in (("daily", "billing", "hourly") if tier == "quick" else
                                                                ("daily", "billing", "hourly", "hourly_solar", "caltrack"))]
